@@ -183,7 +183,7 @@ def parseOp (h : Heap) (hs : List Ref) (ws : List String) : Option (Funs × Op) 
   | ["pickle", k] => do pure (noF, .pickle (← handle? hs k))
   | ["view", k, ix] => do
     let m ← handle? hs k
-    let ix ← (ix.splitOn ",").mapM String.toNat?
+    let ix ← (ix.splitOn ",").mapM String.toInt?
     pure (noF, .view m ix)
   | _ => none
 
